@@ -281,16 +281,33 @@ class Ctx:
         return sorted(set(re.findall(r"error: (\S+\.lean):\d+", self.build_log)
                           + re.findall(r"✖ \[\d+/\d+\] Building (\S+)", self.build_log)))
 
+    def import_cone(self):
+        """Lean source files this property's theorems and driver depend on (transitive `import FunsorVerif.*`)."""
+        roots = [LEAN / "Main" / f"{self.prop}.lean"]
+        for m in self.props_modules():
+            roots.append(LEAN / (m.replace(".", "/") + ".lean"))
+        seen, todo = set(), [r for r in roots if r.exists()]
+        while todo:
+            f = todo.pop()
+            if f in seen:
+                continue
+            seen.add(f)
+            for m in re.findall(r"^\s*import\s+(FunsorVerif(?:\.[A-Za-z0-9_]+)+)", f.read_text(), flags=re.M):
+                g = LEAN / (m.replace(".", "/") + ".lean")
+                if g.exists():
+                    todo.append(g)
+        return sorted(seen)
+
     def grep_forbidden(self):
         hits = []
-        for f in list((LEAN / "FunsorVerif").rglob("*.lean")) + list((LEAN / "Main").glob("*.lean")):
+        for f in self.import_cone():
+            if f.name == "Audit.lean":
+                continue
             txt = f.read_text()
             # strip block comments and line comments
             txt2 = re.sub(r"/-.*?-/", lambda m: "\n" * m.group(0).count("\n"), txt, flags=re.S)
             for i, line in enumerate(txt2.splitlines(), 1):
                 line = line.split("--")[0]
-                if f.name == "Audit.lean":
-                    continue
                 if FORBIDDEN.search(line):
                     hits.append(f"{f.relative_to(LEAN)}:{i}: {line.strip()}")
         return hits
